@@ -173,6 +173,60 @@ def install_misc_shims():
     _note('Candidate.elect: pending flag forced to a real bool (cfer passes the result of a comparison)')
 
 
+def install_guarded_summary():
+    """Guarded.__cmp__ keeps comparison statistics (maxDiff / minDiff) in class attributes; the two `if`s that update
+    them fork every comparison four ways on facts nothing else depends on.  The summary performs the same updates as
+    z3 if-then-else terms and then decides the result exactly as the original does.  Checked against the real
+    __cmp__ by harness.lemmas.guarded_cmp_lemma at the start of every job that uses it."""
+    import droop.values.guarded as gm
+    G = gm.Guarded
+    if getattr(G, '_symex_orig_cmp', None) is not None:
+        return
+    orig = G.__dict__['__cmp__']
+    G._symex_orig_cmp = orig
+
+    def stats_only(a, b):
+        geps = G._Guarded__geps
+        gd = abs(a - b)
+        if isinstance(gd, int) and not isinstance(G.maxDiff, SymInt) and not isinstance(G.minDiff, SymInt):
+            if geps > gd > G.maxDiff:
+                G.maxDiff = gd
+            if geps <= gd < G.minDiff:
+                G.minDiff = gd
+            return gd
+        gde, mx, mn = core.lz(gd), core.lz(G.maxDiff), core.lz(G.minDiff)
+        G.maxDiff = core.mk(z3.simplify(z3.If(z3.And(gde < geps, gde > mx), gde, mx)))
+        G.minDiff = core.mk(z3.simplify(z3.If(z3.And(gde >= geps, gde < mn), gde, mn)))
+        return gd
+    G._symex_stats_only = staticmethod(stats_only)
+
+    def __cmp__(self, other):
+        a, b = self._value, other._value
+        gd = stats_only(a, b)
+        if gd < G._Guarded__geps:
+            return 0
+        if a > b:
+            return 1
+        return -1
+    G.__cmp__ = __cmp__
+    _note('Guarded.__cmp__: statistics updates (maxDiff/minDiff) merged as if-then-else terms instead of forking; result decided as in the original (lemma-checked)')
+
+
+def summarize_ballot_vote_guarded_aware():
+    "Ballot.vote summary that keeps the statistics side effect of the `multiplier == 1` comparison under guarded arithmetic"
+    from droop.election import Election
+    import droop.values.guarded as gm
+    if getattr(Election.Ballot, '_symex_orig_vote', None) is None:
+        Election.Ballot._symex_orig_vote = Election.Ballot.__dict__['vote']
+
+    def vote(self):
+        if type(self.multiplier) is gm.Guarded and hasattr(gm.Guarded, '_symex_stats_only'):
+            gm.Guarded._symex_stats_only(self.multiplier._value, self.E.V1._value)
+        return self.weight * self.multiplier
+    Election.Ballot.vote = property(vote)
+    _note('Election.Ballot.vote summarised as weight*multiplier, keeping the statistics side effect of the fast-path comparison (lemma-checked)')
+
+
 def install_count_shims(markers=False, summary=True):
     import_droop()
     install_int_shims()
@@ -184,6 +238,7 @@ def install_count_shims(markers=False, summary=True):
         reg = install_str_markers()
     else:
         install_str_placeholder()
+    install_guarded_summary()
     if summary:
-        summarize_ballot_vote()
+        summarize_ballot_vote_guarded_aware()
     return reg
